@@ -333,7 +333,7 @@ var hazardPrograms = []string{
 // therefore run last and in few variants, so that they cannot crowd other
 // failures out of the failure list)
 func replaysKnownFinding(src string) bool {
-	for _, m := range []string{"use\\x20strict", "use\\u0020strict", "('use strict')", "'a' + 'b'; 'use strict'", "continue; function f", "function h(p) { { function p()", "case 0: function sf()", "za++\n(", "yield\n+"} {
+	for _, m := range []string{"use\\x20strict", "use\\u0020strict", "('use strict')", "'a' + 'b'; 'use strict'", "continue; function f", "za++\n(", "yield\n+"} {
 		if strings.Contains(src, m) {
 			return true
 		}
@@ -379,8 +379,14 @@ func glueNodeLiterals(r *Rng, st *Stats, n int) {
 			}
 		}
 	}
-	// known finding E: a directive wrapped by --line-limit (replayed once)
-	add("function f() { \"use strict\"; return this === undefined } $p(f());", api.TransformOptions{Loader: api.LoaderJS, LogLevel: api.LogLevelSilent, LineLimit: 5}, "corpus,line-limit=5")
+	// repaired finding E (fix 5c26a33): a directive must not be wrapped by --line-limit (must pass)
+	for _, ll := range []int{1, 5, 9} {
+		for _, mw := range []bool{false, true} {
+			o := api.TransformOptions{Loader: api.LoaderJS, LogLevel: api.LogLevelSilent, LineLimit: ll, MinifyWhitespace: mw}
+			add("function f() { \"use strict\"; return this === undefined } $p(f());", o, fmt.Sprint("corpus,line-limit=", ll, ",minify-whitespace=", mw))
+			add("\"use strict\"; $p((function () { return this })() === undefined);", o, fmt.Sprint("corpus,line-limit=", ll, ",minify-whitespace=", mw))
+		}
+	}
 	// seeded option variation
 	for k := 0; k < len(hazardPrograms) && k < n; k++ {
 		src := hazardPrograms[k]
@@ -420,23 +426,14 @@ func glueNodeLiterals(r *Rng, st *Stats, n int) {
 		}
 		st.Note("hazard", c.src+c.desc, true)
 		input := map[string]string{"program": c.src, "options": c.desc, "output": c.out}
-		if strings.Contains(c.src, "\"use strict\"") && strings.Contains(c.desc, "line-limit") && !strings.Contains(c.out, "\"use strict\"") {
-			input["scenario"] = "directive-split-by-line-limit"
-		}
 		if strings.Contains(c.src, "continue; function f") && hoistsBlockFunction(c.out) {
 			input["scenario"] = "annexb-block-function-var-assigned-at-block-entry"
-		}
-		if strings.Contains(c.src, "case 0: function sf()") && strings.Contains(b.String(), "ReferenceError") {
-			input["scenario"] = "switch-case-block-function-let-in-unentered-clause"
 		}
 		if strings.Contains(c.src, "za++\n(") && strings.Contains(c.out, "(za++)") {
 			input["scenario"] = "asi-after-postfix-update-before-bracket-paren-template"
 		}
 		if strings.Contains(c.src, "yield\n+") && strings.Contains(c.out, "(yield)") {
 			input["scenario"] = "yield-followed-by-newline-continued-as-operand"
-		}
-		if strings.Contains(c.src, "function h(p) { { function p()") && hoistsBlockFunction(c.out) {
-			input["scenario"] = "annexb-block-function-hoisted-over-parameter-name"
 		}
 		if strings.HasPrefix(c.out, "\x00ERR:") {
 			st.Fail("valid-program-rejected", input, c.out[1:], "accepted")
@@ -626,13 +623,12 @@ func glueJSX(r *Rng, st *Stats, n int) {
 
 // ---------------------------------------------------------------------------
 // Annex B.3.3 block-level functions (hlib/jsgen_c01.go): the output must
-// behave like the input; the two recorded deviations are recognised EXACTLY:
+// behave like the input; the one recorded deviation is recognised EXACTLY:
 //   F  the output behaves like the input with the declaration moved to the
 //      start of its block, and something before the declaration position can
-//      observe that (Early);
-//   G  the function's name is a parameter name and the output behaves like the
-//      input with that parameter renamed (i.e. it was hoisted nevertheless),
-//      possibly combined with F.
+//      observe that (Early).
+// (G: hoisting over a parameter name, and H: let in an unentered switch clause,
+// were repaired in /repo by 3a544ef and 551782c: those shapes must now pass.)
 func glueAnnexB(r *Rng, st *Stats, n int) {
 	var cs []AnnexBCase
 	var outs, outsH []string
@@ -670,7 +666,7 @@ func glueAnnexB(r *Rng, st *Stats, n int) {
 	}
 	reported := map[string]int{}
 	for k, c := range cs {
-		nat, natH, out, outH, natR, natRH := results[6*k], results[6*k+1], results[6*k+2], results[6*k+3], results[6*k+4], results[6*k+5]
+		nat, natH, out, outH := results[6*k], results[6*k+1], results[6*k+2], results[6*k+3]
 		noisy := false
 		for _, x := range results[6*k : 6*k+6] {
 			noisy = noisy || oracleNoise(x)
@@ -689,7 +685,7 @@ func glueAnnexB(r *Rng, st *Stats, n int) {
 			st.Fail("valid-program-rejected", input, outs[k][1:], "accepted")
 			continue
 		}
-		if !c.Param && !c.Early && !c.SwitchOther && !natH.Same(outH) && stillDiffers(c.Hoisted, outsH[k]) {
+		if !c.Param && !c.Early && !natH.Same(outH) && stillDiffers(c.Hoisted, outsH[k]) {
 			st.Fail("behaviour-differs", map[string]string{"program": c.Hoisted, "output": outsH[k], "shape": c.Shape + ":declaration-first"}, outH.String(), natH.String())
 		}
 		if nat.Same(out) {
@@ -697,12 +693,8 @@ func glueAnnexB(r *Rng, st *Stats, n int) {
 		}
 		scenario := ""
 		switch {
-		case c.SwitchOther && strings.Contains(out.String(), "ReferenceError") && !strings.Contains(nat.String(), "ReferenceError"):
-			scenario = "switch-case-block-function-let-in-unentered-clause"
 		case !c.Param && c.Early && natH.Same(out):
 			scenario = "annexb-block-function-var-assigned-at-block-entry"
-		case c.Param && (natR.Same(out) || natRH.Same(out)):
-			scenario = "annexb-block-function-hoisted-over-parameter-name"
 		}
 		if scenario != "" {
 			st.Histogram["known-shape:"+scenario]++
